@@ -301,6 +301,11 @@ def evolve_rows(spec, seq, rows, links):
                 for r in rows.get(m['uid'], []):
                     if r.get(f['uid']) is None:
                         r[f['uid']] = val
+        elif k == 'SQLMutation' and mut.get('backfill'):
+            bf = mut['backfill']
+            for r in rows.get(bf['model'], []):
+                if bf['field'] in r and r[bf['field']] is None:
+                    r[bf['field']] = bf['value']
         elif k == 'DeleteModel':
             m = S.get_model(cur, mut['app'], mut['model'])
             rows.pop(m['uid'], None)
